@@ -137,4 +137,26 @@ def backoff (fuel : Nat) (r : Nat → α) (p : Params α) : Outcome α :=
   | _ => backoffIter fuel r p
 
 end
+
+/-! ### acceptance of jittered values
+
+The statement fixes the un-jittered sequence exactly (one multiplication per step) but a
+jittered value only up to an interval: "every value lies between the un-jittered value b at
+that position and b*(1-j), inclusive".  HOW the implementation draws a point of that interval
+(`cur - cur*jitter*random()`, `cur * (1 - jitter*random())`, …) is left open, so the
+correspondence judges a jittered value by this predicate instead of comparing it bit for bit
+with `emit`.  `tol` is 0 on the exact instance; on doubles the interval ends are themselves only
+defined up to rounding and `tolF` (2⁻⁵⁰ relative + four smallest subnormals, the slack the
+independent oracle uses as well) is allowed. -/
+
+/-- `w` lies between `b` and `b * (1 - j)`, inclusive, with slack `tol` -/
+def jitAccept (tol b j w : Rat) : Bool :=
+  decide (min b (b * (1 - j)) - tol ≤ w) && decide (w ≤ max b (b * (1 - j)) + tol)
+
+def ratAbs (x : Rat) : Rat := if x < 0 then -x else x
+
+/-- the slack allowed on IEEE doubles -/
+def tolF (b j : Rat) : Rat :=
+  max (ratAbs b) (ratAbs (b * (1 - j))) / (2 : Rat) ^ 50 + 1 / (2 : Rat) ^ 1072
+
 end C15
